@@ -42,6 +42,17 @@ pub(super) struct DependencyGraph {
     transferred_dependents: TransferredDependents,
 }
 
+#[cfg(salsa_rs_salsa_verif)]
+impl DependencyGraph {
+    /// H7: the `transferred` map as (query, owning query) pairs.
+    pub(super) fn verif_transferred(&self) -> Vec<(DatabaseKeyIndex, DatabaseKeyIndex)> {
+        self.transferred
+            .iter()
+            .map(|(query, (_, owner))| (*query, *owner))
+            .collect()
+    }
+}
+
 impl DependencyGraph {
     /// True if `from_id` depends on `to_id`.
     ///
